@@ -76,6 +76,12 @@ REGIONS = {
     "fine-features": {"type": "FeatureCollection", "features": [
         {"type": "Feature", "geometry": {"type": "Point", "coordinates": [-72.123456789, 41.987654321]}}]},
     "geometry": {"type": "Feature", "geometry": {"type": "Polygon", "coordinates": [[[-93, 22], [-93, 32], [-84, 32], [-84, 22], [-93, 22]]]}},
+    # GeoJSON's optional "bbox" member (RFC 7946 section 5) describes the extent; the region is still the geometries
+    "geometry-bbox": {"type": "Feature", "bbox": [0.0, 0.0, 5.0, 5.0],
+                      "geometry": {"type": "Polygon", "coordinates": [[[0, 0], [0, 5], [5, 5], [0, 0]]]}},
+    "features-bbox": {"type": "FeatureCollection", "bbox": [-72.5, 0.0, 5.0, 41.25], "features": [
+        {"type": "Feature", "bbox": [-72.5, 41.25, -72.5, 41.25], "geometry": {"type": "Point", "coordinates": [-72.5, 41.25]}},
+        {"type": "Feature", "geometry": {"type": "Polygon", "coordinates": [[[0, 0], [0, 5], [5, 5], [0, 0]]]}}]},
     "features": {"type": "FeatureCollection", "features": [
         {"type": "Feature", "geometry": {"type": "Point", "coordinates": [-72.5, 41.25]}},
         {"type": "Feature", "geometry": {"type": "Polygon", "coordinates": [[[0, 0], [0, 5], [5, 5], [0, 0]]]}}]},
@@ -372,18 +378,32 @@ def run(ctx) -> None:
                     lays.append("bare-streams")
                     if len(ctxs[0]["streams"]) == 1:
                         lays.append("bare-modules")
+            if it % 7 == 3:
+                # history: a config that legally declares itself YAML 1.1 was loaded just before; the meaning of the
+                # configs loaded afterwards (with ids such as on / no / 010 / 1:30) does not depend on that
+                old = "%YAML 1.1\n---\ntemp:\n  qartod:\n    gross_range_test:\n      suspect_span: [1, 11]\n      fail_span: [0, 12]\n"
+                for src in (old, io.StringIO(old)):
+                    try:
+                        got11 = observed(Config(src))
+                    except Exception as e:  # noqa: BLE001
+                        ctx.violation(f"C07:yaml-1.1-directive:raised:{type(e).__name__}@{P.client_where(e)}", {"kind": "config", "source": old})
+                        continue
+                    ctx.count("c07.yaml11_directive_loads")
+                    if len(got11) != 1 or "'temp', 'qartod', 'gross_range_test'" not in got11[0]:
+                        ctx.violation("C07:yaml-1.1-directive:call-set-differs", {"kind": "config", "source": old, "observed": got11})
             for lay in lays:
-                want = intended(ctxs, default_stream="_stream" if lay == "bare-modules" else None)
+                dsk = rng.choice(["_stream", "_stream", "sensor_1", "v"]) if lay == "bare-modules" else None
+                want = intended(ctxs, default_stream=dsk)
                 all_null = all(kw is None for c in ctxs for tests in c["streams"].values() for _, _, kw in tests)
                 has_null = any(kw is None for c in ctxs for tests in c["streams"].values() for _, _, kw in tests)
                 has_unknown = any((m, t) not in TESTS for c in ctxs for tests in c["streams"].values() for m, t, _ in tests)
                 for cname, src in carriers(ctxs, lay, scratch, rng):
-                    wb = {"kind": "config", "carrier": cname, "layout": lay,
+                    wb = {"kind": "config", "carrier": cname, "layout": lay, "default_stream_key": dsk,
                           "tree": core.jsonable([{**c, "streams": {s: [list(x) for x in ts_] for s, ts_ in c["streams"].items()}} for c in ctxs]),
                           "source": src if isinstance(src, str) and len(src) < 1500 else type(src).__name__,
                           "all_params_null": all_null}
                     try:
-                        cfg = Config(src)
+                        cfg = Config(src) if dsk in (None, "_stream") else Config(src, default_stream_key=dsk)
                         got = observed(cfg)
                     except Exception as e:  # noqa: BLE001
                         ctx.violation(f"C07:{lay}:{cname}:raised:{type(e).__name__}@{P.client_where(e)}", {**wb, "error": repr(e)[:300]})
